@@ -61,6 +61,13 @@ Untaken(m) == /\ ph[m] = "emitted" /\ settle[m] = "none" /\ ph' = [ph EXCEPT ![m
               /\ UNCHANGED <<settle, res, pubres, calls>>
 
 \* the handler settles the message itself
+\* Whoever shares the message object with the source (a subscriber decorator with an ack deadline, the source itself)
+\* settled it BEFORE it is handed over.  It is a message like any other: the chain is invoked, its outputs are
+\* published; the router's own settlement is then without effect (first settlement wins).
+PreSettle(m, k) == /\ ph[m] = "idle" /\ settle[m] = "none" /\ k \in {"ack", "nack"}
+                   /\ settle' = [settle EXCEPT ![m] = k]
+                   /\ UNCHANGED <<ph, res, pubres, calls>>
+
 HSelf(m, k) == /\ ph[m] = "handling" /\ k \in {"ack", "nack"}
                /\ settle' = [settle EXCEPT ![m] = FirstWins(@, k)]
                /\ UNCHANGED <<ph, res, pubres, calls>>
@@ -108,7 +115,7 @@ Settle(m) == /\ ph[m] = "tosettle"
 
 RStep == \E m \in Msgs :
            \/ Emit(m) \/ HStart(m) \/ Settle(m) \/ Untaken(m)
-           \/ \E k \in {"ack", "nack"} : HSelf(m, k)
+           \/ \E k \in {"ack", "nack"} : HSelf(m, k) \/ PreSettle(m, k)
            \/ \E r \in Results : HEnd(m, r)
            \/ PCall(m, res[m].outs, settle[m])
            \/ \E o \in {"accept", "error", "panic"} : PRet(m, o, settle[m])
@@ -134,7 +141,7 @@ NoSettleBeforePublishReturns ==
 \* ... and it is still unsettled then unless the handler settled it itself: the
 \* only step that settles before "tosettle" is HSelf (ph stays "handling")
 OnlyHandlerSettlesEarly ==
-    [][\A m \in Msgs : (settle[m] = "none" /\ settle'[m] # "none") => (ph[m] = "handling" /\ ph'[m] = "handling") \/ (ph[m] = "tosettle")]_rvars
+    [][\A m \in Msgs : (settle[m] = "none" /\ settle'[m] # "none") => (ph[m] = "handling" /\ ph'[m] = "handling") \/ (ph[m] = "tosettle") \/ (ph[m] = "idle" /\ ph'[m] = "idle")]_rvars
 AtMostOnePublish == \A m \in Msgs : calls[m] <= 1
 NoPublishAfterError ==
     \A m \in Msgs : calls[m] > 0 => (res[m].end = "ok" /\ Len(res[m].outs) > 0 /\ hp[m])
